@@ -133,8 +133,9 @@ class BadgerFishConverter(XMLSchemaConverter):
                 ns_name = self.unmap_qname(name, xmlns=self.get_xmlns_from_data(value))
                 content.append((ns_name, value))
             elif isinstance(value[0], (MutableMapping, MutableSequence)):
-                ns_name = self.unmap_qname(name, xmlns=self.get_xmlns_from_data(value[0]))
                 for item in value:
+                    # each item can redeclare the prefix used by the common key
+                    ns_name = self.unmap_qname(name, xmlns=self.get_xmlns_from_data(item))
                     content.append((ns_name, item))
             else:
                 ns_name = self.unmap_qname(name)
